@@ -485,7 +485,15 @@ class C08(Property):
         out.append({"schema": _cont(1, "list", [_cont(2, "dict", [_sc(3, "integer", "x")])], name="l"),
                     "init": {"route": "from_flat", "pairs": [["l_0_x", "1"], ["l_2_x", "2"], ["l_1_x", "z"]]},
                     "ops": [{"t": 0, "s": {"op": "reverse"}}], "nomodel": True})
-        return out
+        extra = []
+        try:
+            import json as _json, os as _os
+            _p = _os.path.join(_os.path.dirname(__file__), 'c08_corpus.json')
+            if _os.path.exists(_p):
+                extra = _json.load(open(_p))
+        except Exception:
+            extra = []
+        return extra + out
 
     def has_model(self, case):
         return not case.get("nomodel")
